@@ -131,7 +131,37 @@ class NonUniform2D(Model):
         return -0.5 * ((x["x0"] - 0.5) ** 2 + (x["x1"] + 0.5) ** 2) / 0.25
 
 
+class Angle2D(Model):
+    """One periodic angle and one Cartesian parameter (angle reparameterisations add an
+    auxiliary radial parameter inside the flow proposal)."""
+
+    def __init__(self):
+        self.names = ["phi", "y"]
+        self.bounds = {"phi": [0.0, 2.0 * np.pi], "y": [-5.0, 5.0]}
+
+    def log_prior(self, x):
+        with np.errstate(divide="ignore"):
+            lp = np.log(self.in_bounds(x).astype(float))
+        return lp - np.log(2.0 * np.pi) - np.log(10.0)
+
+    def log_likelihood(self, x):
+        return -0.5 * (((x["phi"] - np.pi) / 0.7) ** 2 + x["y"] ** 2)
+
+    def to_unit_hypercube(self, x):
+        x = x.copy()
+        x["phi"] = x["phi"] / (2.0 * np.pi)
+        x["y"] = (x["y"] + 5.0) / 10.0
+        return x
+
+    def from_unit_hypercube(self, x):
+        x = x.copy()
+        x["phi"] = 2.0 * np.pi * x["phi"]
+        x["y"] = 10.0 * x["y"] - 5.0
+        return x
+
+
 MODELS = {
+    "angle2": Angle2D,
     "gauss2": Gaussian2D,
     "gauss4": Gaussian4D,
     "rosen2": Rosenbrock2D,
